@@ -347,10 +347,10 @@ def reopen (fork : List Byte) (dataFileLen : Nat) : ParseRes :=
   | .err _ => .err
   | .fuel => .unmodelled
 
-/-- the tests of guess_file_type between the HTK test and try_resource_fork: `some true` = the resource fork is tried,
-    `some false` = another branch decides, `none` = not described here (ID3 tags are skipped and the test restarts) -/
-def reachesFork (data : List Byte) : Option Bool :=
-  if data.length < 12 then some false else                           -- SFE_BAD_FILE_READ
+/-- the tests of guess_file_type that lie between the HTK test and try_resource_fork, on a file of at least 12 bytes:
+    `some true` = the resource fork is tried, `some false` = another branch decides, `none` = not described here (ID3
+    tags are skipped and the test restarts) -/
+def laterTests (data : List Byte) : Option Bool :=
   match Small2.guess data with
   | some _ => some false
   | none =>
@@ -361,5 +361,24 @@ def reachesFork (data : List Byte) : Option Bool :=
     else if a.take 3 = asc "ID3" ∧ (a.getD 3 0 = 2 ∨ a.getD 3 0 = 3 ∨ a.getD 3 0 = 4) then none
     else if (a = asc "SOUN" ∧ b = asc "D SA") ∨ a = asc "SY80" ∨ a = asc "SY85" ∨ a = asc "ajkg" then some false
     else some true
+
+/-- does guess_file_type reach try_resource_fork on this data file?  A file too short for the 12-byte probe has no
+    header of any kind: the resource fork is tried (the repaired rule) -/
+def reachesFork (data : List Byte) : Option Bool :=
+  if data.length < 12 then some true else laterTests data
+
+/-- before the repair of KF-C04-SD2-SHORT-DATA: a short probe read ended the open with SFE_BAD_FILE_READ -/
+def reachesForkOld (data : List Byte) : Option Bool :=
+  if data.length < 12 then some false else laterTests data
+
+/-- sf_open (SFM_READ) on the data file `data` with the side file `fork` -/
+def reopenFileWith (rf : List Byte → Option Bool) (data fork : List Byte) : ParseRes :=
+  match rf data with
+  | some true => reopen fork data.length
+  | some false => if data.length < 12 then .err else .unmodelled     -- another container's reader decides
+  | none => .unmodelled
+
+def reopenFile (data fork : List Byte) : ParseRes := reopenFileWith reachesFork data fork
+def reopenFileOld (data fork : List Byte) : ParseRes := reopenFileWith reachesForkOld data fork
 
 end Sf.Sd2
